@@ -166,6 +166,13 @@ def point_set(draw: Any, max_n: int = 12, kinds: tuple[str, ...] = ("lattice", "
 def case_hv(draw: Any) -> dict[str, Any]:
     ps = draw(point_set())
     d, pts = ps["d"], ps["points"]
+    if draw(st.integers(0, 2)) == 0:
+        # a Pareto front by construction (with repeated members): what the callers that pass
+        # assume_pareto=True have -- random sets of a dozen points are almost never one
+        pts = [p for p in pts if not any(dominates(q, p) for q in pts)]
+        for _ in range(draw(st.integers(0, 2))):
+            pts.append(list(pts[draw(st.integers(0, len(pts) - 1))]))
+        pts = [pts[i] for i in draw(st.permutations(list(range(len(pts)))))]
     ref = []
     for k in range(d):
         col = [p[k] for p in pts if p[k] != -INF]
@@ -435,9 +442,32 @@ def case_hssp_small(draw: Any) -> dict[str, Any]:
     return {"kind": "lattice", "points": front, "indices": list(range(len(front))), "k": k, "ref": ref}
 
 
+@st.composite
+def case_hssp_2d(draw: Any) -> dict[str, Any]:
+    """Two objectives (a separate solver in hssp.py): staircases with a wide dynamic range --
+    steps of very different width and height, so that one or two points carry most of the
+    volume -- given in arbitrary order, with an occasional duplicate or dominated point."""
+    n = draw(st.integers(3, 9))
+    coord = st.one_of(st.integers(-10, 100), st.sampled_from([0, 1, 90, 91, 99, 100]), st.integers(0, 8)).map(float)
+    xs = sorted(set(draw(st.lists(coord, min_size=n, max_size=n))))
+    ys = sorted(set(draw(st.lists(coord, min_size=len(xs), max_size=len(xs) + 3))), reverse=True)
+    m = min(len(xs), len(ys))
+    front = [[xs[i], ys[i]] for i in range(m)]
+    if len(front) >= 2 and draw(st.integers(0, 4)) == 0:
+        front.append(list(front[draw(st.integers(0, len(front) - 1))]))
+    if draw(st.integers(0, 4)) == 0:
+        front.append([front[0][0] + 1.0, front[0][1] + 1.0])
+    order = draw(st.permutations(list(range(len(front)))))
+    front = [front[i] for i in order]
+    k = draw(st.integers(1, len(front)))
+    ref = [max(p[c] for p in front) + draw(st.sampled_from([1.0, 1.0, 0.125, 9.0, 50.0])) for c in range(2)]
+    return {"kind": "staircase-2d", "points": front, "indices": list(range(len(front))), "k": k, "ref": ref}
+
+
 CHECKS = [
-    Check("hv", lambda tier: case_hv(), run_hv, {"quick": 4000, "thorough": 250000}, budget_s={"quick": 120, "thorough": 1500}),
-    Check("rank", lambda tier: case_rank(), run_rank, {"quick": 4000, "thorough": 250000}, budget_s={"quick": 60, "thorough": 900}),
+    Check("hv", lambda tier: case_hv(), run_hv, {"quick": 12000, "thorough": 250000}, budget_s={"quick": 120, "thorough": 1500}),
+    Check("rank", lambda tier: case_rank(), run_rank, {"quick": 8000, "thorough": 250000}, budget_s={"quick": 60, "thorough": 900}),
     Check("hssp", lambda tier: case_hssp(), run_hssp, {"quick": 2500, "thorough": 120000}, budget_s={"quick": 100, "thorough": 1500}),
+    Check("hssp_2d", lambda tier: case_hssp_2d(), run_hssp, {"quick": 16000, "thorough": 600000}, budget_s={"quick": 100, "thorough": 1500}),
     Check("hssp_small", lambda tier: case_hssp_small(), run_hssp, {"quick": 48000, "thorough": 1500000}, budget_s={"quick": 100, "thorough": 1500}),
 ]
